@@ -36,10 +36,23 @@ UnwireFails(e) == LET sd == DecodeFrame(e.bytes) IN
 \* those orders the concrete clause on the `validate` event (MIC of the frame as held) is the check.
 PosIn(sq, x) == IF \E i \in 1..Len(sq) : sq[i] = x THEN CHOOSE i \in 1..Len(sq) : sq[i] = x ELSE 99
 ValidateFirst(e) == PosIn(e.rops, "Validate") < PosIn(e.rops, "DecryptFOpts") /\ PosIn(e.rops, "Validate") < PosIn(e.rops, "DecryptFRMPayload")
+\* The symbolic model treats a keystream as something that always changes the bytes it is XOR-ed onto.  On a concrete
+\* frame the keystream bytes that meet the (short) payload can be zero: then a sender that computed the MIC before
+\* encrypting put exactly the bytes of a conformant sender on the air, and the predicted rejection is void.  (The exact
+\* MIC of every frame as held is checked by the `validate` events either way.)
+PlainOnWire(e) ==
+  LET sd == DecodeFrame(e.wire) IN
+  Has(e, "wire") /\ ~IsErr(sd) /\ sd.kind = "data"
+  /\ ItemsBytes(e.cfg.dir, sd.frm) = ItemsBytes(e.cfg.dir, e.orig.frm) /\ ItemsBytes(e.cfg.dir, sd.fopts) = ItemsBytes(e.cfg.dir, e.orig.fopts)
+\* deviations that change nothing the specification authenticates (SecureLink!Effective, the statically decidable part)
+Harmless(cfg) == \/ cfg.dev \in {"none", "frmkey", "foptskey", "confhigh"}
+                 \/ (cfg.dev = "fkey" /\ cfg.dir # "up") \/ (cfg.dev = "skey" /\ ~(cfg.dir = "down" \/ cfg.ver = 1))
+                 \/ (cfg.dev = "conf" /\ ~(cfg.ver = 1 /\ cfg.ack)) \/ (cfg.dev \in {"txdr", "txch"} /\ ~(cfg.dir = "up" /\ cfg.ver = 1))
+MisorderedSender(e) == PosIn(e.sops, "SetMIC") < PosIn(e.sops, "EncryptFRMPayload") \/ PosIn(e.sops, "SetMIC") < PosIn(e.sops, "EncryptFOpts")
 EndFails(e) ==
   LET dir == e.cfg.dir IN
   (IF ValidateFirst(e) /\ e.exp.verdict = "T" /\ e.verdict # "T" THEN <<"C05.recover">> ELSE <<>>)
-  \o (IF ValidateFirst(e) /\ e.exp.verdict = "F" /\ e.verdict \notin {"F", "err"} THEN <<"C05.reject">> ELSE <<>>)
+  \o (IF ValidateFirst(e) /\ e.exp.verdict = "F" /\ e.verdict \notin {"F", "err"} /\ ~(Harmless(e.cfg) /\ MisorderedSender(e) /\ PlainOnWire(e)) THEN <<"C05.reject">> ELSE <<>>)
   \o (IF e.exp.equal /\ Has(e, "final") /\
          ~(/\ e.final.kind = "data"
            /\ e.final.fopts = QuantItems(dir, e.orig.fopts)
